@@ -54,6 +54,10 @@ def gen_cases(tier, seed):
     yield C(w="ktensor", shape=[300, 2, 150], fam="normal", R=60)
     yield C(w="sptensor", shape=[50, 60, 70], fam="bits", pattern="big", base=1)
     yield C(w="sptensor", shape=[50, 60, 70], fam="normal", pattern="big2", base=1)        # more than 2^17 stored entries
+    # subscripts held in a narrow integer type, up to the largest value of that type
+    for dt, shp in (("uint8", [256, 2]), ("int8", [128, 3]), ("uint16", [65536, 2]), ("int16", [3, 32768]), ("uint8", [2, 256, 2])):
+        for base in (1, 0):
+            yield C(w="sptensor", shape=shp, fam="normal", pattern="narrow", base=base, subs_dtype=dt)
     # many modes (the order line of the file has two digits)
     for N in (9, 10, 11, 12):
         shp = [int(x) for x in rng.integers(1, 3, size=N)]
@@ -200,7 +204,14 @@ def _run(case, ctx, rng, shape, path):
                           lambda k=k: f"factor {k} differs: {_first(B.factor_matrices[k], fm[k])}", factor=min(k, 3))
     else:
         pat = case["pattern"]
-        if pat == "huge":
+        if pat == "narrow":
+            k = 5
+            subs = np.array([[int(rng.integers(0, s_)) for s_ in shape] for _ in range(k)], dtype=np.int64)
+            subs[0] = [s_ - 1 for s_ in shape]
+            subs = np.unique(subs, axis=0)
+            subs = subs[rng.permutation(subs.shape[0])]
+            k = subs.shape[0]
+        elif pat == "huge":
             k = 6
             subs = np.array([[int(rng.integers(max(0, s_ - 1000), s_)) if rng.random() < 0.7 else int(rng.integers(0, s_)) for s_ in shape] for _ in range(k)], dtype=np.int64)
             subs[0] = [s_ - 1 for s_ in shape]
@@ -222,7 +233,9 @@ def _run(case, ctx, rng, shape, path):
             z = rng.random(k) < 0.4
             z[int(rng.integers(0, k))] = True
             vals[z, 0] = rng.choice([0.0, -0.0], size=int(z.sum()))
-        S = ttb.sptensor(subs.astype(int), vals.copy(), shape) if k else ttb.sptensor(shape=shape)
+        sdt = np.dtype(case.get("subs_dtype", "int64"))
+        S = ttb.sptensor(subs.astype(sdt), vals.copy(), shape) if k else ttb.sptensor(shape=shape)
+        ctx.feat(subs_dtype=str(sdt))
         ctx.feat(pattern=pat, base=case["base"])
         dig = state_digest(S)
         r = ctx.call("export_data", ttb.export_data, S, path)
